@@ -134,6 +134,17 @@ inline EdgeList disjoint_union(const EdgeList &a, const EdgeList &b) {
     return g;
 }
 
+// vertices renumbered by the s-th permutation of a deterministic generator (s = 0: identity); edge insertion order is kept,
+// so the adjacency order changes with the numbering too
+inline EdgeList relabel(EdgeList g, int sd) {
+    if (sd == 0) return g;
+    std::vector<int> perm(g.n); for (int i = 0; i < g.n; ++i) perm[i] = i;
+    uint64_t st = 0x51ed270b7f4a7c15ull ^ ((uint64_t) sd * 0x9e3779b97f4a7c15ull + (uint64_t) g.n); lcg_next(st);
+    for (int i = g.n - 1; i > 0; --i) { int j = (int) (lcg_next(st) % (uint64_t) (i + 1)); std::swap(perm[i], perm[j]); }
+    for (auto &e : g.e) { int a = perm[e.first], b = perm[e.second]; e = {std::min(a, b), std::max(a, b)}; }
+    return g;
+}
+
 // named family by spec string: relab:s:<spec> antiprism:k mobius:k grid:a:b torus:a:b cube:d K:n Kp:n:p pK:n:p Kb:a:b wheel:k prism:k petersen cycle:k brick:a:b subgrid:a:b subcube:d
 inline EdgeList family(const std::string &spec) {
     std::vector<std::string> t; { std::string c; for (char ch : spec) { if (ch == ':') { t.push_back(c); c.clear(); } else c += ch; } t.push_back(c); }
@@ -141,13 +152,7 @@ inline EdgeList family(const std::string &spec) {
     if (t[0] == "relab") {   // relab:s:<family spec> - the family with its vertices renumbered by the s-th permutation of a deterministic
                              // generator (s = 0: identity); edge insertion order is kept, so adjacency order changes with the numbering too
         std::string rest = spec.substr(spec.find(':', 6) + 1);
-        EdgeList g = family(rest);
-        int sd = I(1); if (sd == 0) return g;
-        std::vector<int> perm(g.n); for (int i = 0; i < g.n; ++i) perm[i] = i;
-        uint64_t st = 0x51ed270b7f4a7c15ull ^ ((uint64_t) sd * 0x9e3779b97f4a7c15ull + (uint64_t) g.n); lcg_next(st);
-        for (int i = g.n - 1; i > 0; --i) { int j = (int) (lcg_next(st) % (uint64_t) (i + 1)); std::swap(perm[i], perm[j]); }
-        for (auto &e : g.e) { int a = perm[e.first], b = perm[e.second]; e = {std::min(a, b), std::max(a, b)}; }
-        return g;
+        return relabel(family(rest), I(1));
     }
     if (t[0] == "antiprism") { EdgeList g; int k = I(1); g.n = 2 * k; for (int i = 0; i < 2 * k; ++i) for (int d = 1; d <= 2; ++d) { int j = (i + d) % (2 * k); g.e.push_back({std::min(i, j), std::max(i, j)}); } return g; }   // circulant C_2k(1,2)
     if (t[0] == "mobius") { EdgeList g; int k = I(1); g.n = 2 * k; for (int i = 0; i < 2 * k; ++i) { int j = (i + 1) % (2 * k); g.e.push_back({std::min(i, j), std::max(i, j)}); } for (int i = 0; i < k; ++i) g.e.push_back({i, i + k}); return g; }   // Moebius ladder M_2k
